@@ -563,6 +563,9 @@ type c02End struct {
 	pauseAt int
 	paused  chan struct{}
 	resume  chan struct{}
+	// optional milestone: markCh is closed once markAt bytes have been received
+	markAt int64
+	markCh chan struct{}
 }
 
 func (e *c02End) writer() {
@@ -607,6 +610,14 @@ func (e *c02End) reader() {
 	e.onGot.check(0)
 	buf := make([]byte, e.rbuf)
 	var got int64
+	marked := false
+	mark := func() {
+		if e.markCh != nil && !marked && got >= e.markAt {
+			marked = true
+			close(e.markCh)
+		}
+	}
+	mark()
 	for {
 		n, err := e.cli.Read(buf)
 		if n > 0 {
@@ -621,6 +632,7 @@ func (e *c02End) reader() {
 			}
 			got += int64(n)
 			e.got.Store(got)
+			mark()
 			if got == int64(len(e.expect)) && e.bad.Load() == nil {
 				close(e.gotAll)
 			}
@@ -722,6 +734,7 @@ func c02BridgeTag(b *Bridge) string { return fmt.Sprintf("tunnel.(*Bridge).CopyW
 func c02StartTag(b *Bridge) string  { return fmt.Sprintf("tunnel.(*Bridge).Start(%p", b) }
 func c02CloseTag(b *Bridge) string  { return fmt.Sprintf("tunnel.(*Bridge).Close(%p", b) }
 func c02ReaderTag(e *c02End) string { return fmt.Sprintf("tunnel.(*c02End).reader(%p", e) }
+func c02WriterTag(e *c02End) string { return fmt.Sprintf("tunnel.(*c02End).writer(%p", e) }
 
 // c02Parked reports whether every goroutine of the bridge (and of the given harness
 // readers, which must have nothing left to consume) is parked in a transport read (or
@@ -730,7 +743,8 @@ func c02ReaderTag(e *c02End) string { return fmt.Sprintf("tunnel.(*c02End).reade
 func c02Parked(b *Bridge, readers ...*c02End) (bool, string) {
 	tags := []string{c02BridgeTag(b), c02StartTag(b), c02CloseTag(b)}
 	for _, e := range readers {
-		tags = append(tags, c02ReaderTag(e))
+		// a client writer that is still around must be blocked in a transport write
+		tags = append(tags, c02ReaderTag(e), c02WriterTag(e))
 	}
 	progress := func() (n int64) {
 		for _, e := range readers {
@@ -1238,12 +1252,16 @@ phaseA:
 // source has sent its whole stream and the target the first h bytes of its stream, all
 // of which have been received (so no bridge write is in flight), when the source end
 // re-attaches on a new connection S2 (Bridge.SetSourceConnection, what
-// handleExistingBridge does for a source reconnect) while S1 stays open. The target then
-// writes the rest. Every write of the bridge towards the source that starts after
-// SetSourceConnection returned must go to the current source connection: S2 must receive
-// exactly target-stream[h:], S1 exactly target-stream[:h] and nothing more.
-// (Not judged: which connection the source->target loop reads after the hand-over; the
-// old connection is closed by the harness at teardown.)
+// handleExistingBridge does for a source reconnect) while S1 stays open (half-dead: its
+// peer neither writes nor closes any more). From then on the tunnel's source end is S2:
+//   - the target writes the rest: every bridge write towards the source that starts
+//     after SetSourceConnection returned must go to S2 (S2 gets exactly target[h:], S1
+//     exactly target[:h]);
+//   - in half of the cases the new source end writes a second stream: the target must
+//     receive it after the first one;
+//   - then the target (or the new source end) closes: the other one must observe
+//     closure and Start must return - without anybody touching the abandoned S1.
+// Stalls/hangs are decided by the goroutine-state classifier only.
 func c02RunReattach(run *vk.Run, nw *c02Net, cfg c02Cfg) (out c02Outcome) {
 	lc := c02LimitClass(cfg.Limit)
 	ctx, cancel := context.WithCancel(context.Background())
@@ -1279,18 +1297,23 @@ func c02RunReattach(run *vk.Run, nw *c02Net, cfg c02Cfg) (out c02Outcome) {
 	}
 	srvS1.maxRead, srvT.maxRead = cfg.MaxReadS, cfg.MaxReadT
 	h := int(cfg.At)
-	s2t := vk.Pattern(cfg.Seed, 0, cfg.S2T)
+	after := 0 // bytes the new source end writes after the hand-over
+	if cfg.DataErr {
+		after = 1 + int(cfg.ChunkSeed%5000)
+	}
+	s2t := vk.Pattern(cfg.Seed, 0, cfg.S2T+after)
 	t2s := vk.Pattern(cfg.Seed^0xA5A5A5A5DEADBEEF, 0, cfg.T2S)
 	cr := rand.New(rand.NewSource(cfg.ChunkSeed))
 	mk := func(name string, cli net.Conn, srv *c02Conn, send, expect []byte, chunks []int, rbuf int) *c02End {
 		return &c02End{name: name, cli: cli, srv: srv, send: send, expect: expect, chunks: chunks, rbuf: rbuf, yield: cfg.Yield,
 			wDone: make(chan struct{}), rDone: make(chan struct{}), gotAll: make(chan struct{}), wStart: make(chan struct{}), badCh: make(chan struct{})}
 	}
-	S1 := mk("src", cliS1, srvS1, s2t, t2s[:h], c02Chunks(cr, cfg.ChunkS, len(s2t)), cfg.RBufS)
-	S2 := mk("src2", cliS2, srvS2, nil, t2s[h:], nil, cfg.RBufS)
+	S1 := mk("src", cliS1, srvS1, s2t[:cfg.S2T], t2s[:h], c02Chunks(cr, cfg.ChunkS, cfg.S2T), cfg.RBufS)
+	S2 := mk("src2", cliS2, srvS2, s2t[cfg.S2T:], t2s[h:], c02Chunks(cr, "small", after), cfg.RBufS)
 	tChunks := append(c02Chunks(cr, cfg.ChunkT, h), c02Chunks(cr, cfg.ChunkT, len(t2s)-h)...)
 	T := mk("tgt", cliT, srvT, t2s, s2t, tChunks, cfg.RBufT)
 	T.pauseAt, T.paused, T.resume = h, make(chan struct{}), make(chan struct{})
+	T.markAt, T.markCh = int64(cfg.S2T), make(chan struct{})
 	paused := T.paused
 
 	var st1, st2, stT stream.PackageStreamer
@@ -1316,10 +1339,14 @@ func c02RunReattach(run *vk.Run, nw *c02Net, cfg c02Cfg) (out c02Outcome) {
 		bridge.SetTargetConnection(&c02TunnelConn{id: "tgt", conn: srvT, st: stT})
 	}
 	handedOver := false
+	closed := ""
 	detail := func(extra map[string]any) map[string]any {
-		m := map[string]any{"case": cfg, "limit_class": lc, "handover_offset": h, "handed_over": handedOver,
-			"tgt_sent": T.sent.Load(), "old_src_got": S1.got.Load(), "new_src_got": S2.got.Load(), "src_sent": S1.sent.Load(), "tgt_got": T.got.Load(),
+		m := map[string]any{"case": cfg, "limit_class": lc, "handover_offset": h, "handed_over": handedOver, "new_source_bytes_after_handover": after,
+			"closed_end_after_handover": closed,
+			"tgt_sent": T.sent.Load(), "old_src_got": S1.got.Load(), "new_src_got": S2.got.Load(), "old_src_sent": S1.sent.Load(), "new_src_sent": S2.sent.Load(), "tgt_got": T.got.Load(),
 			"srv_old_src_written": srvS1.wr.Load(), "srv_new_src_written": srvS2.wr.Load(), "srv_tgt_read": srvT.rd.Load(),
+			"srv_old_src_read": srvS1.rd.Load(), "srv_new_src_read": srvS2.rd.Load(),
+			"srv_old_src_closes": srvS1.closes.Load(), "srv_new_src_closes": srvS2.closes.Load(), "srv_tgt_closes": srvT.closes.Load(),
 			"elapsed_ms": time.Since(began).Milliseconds()}
 		for k, v := range extra {
 			m[k] = v
@@ -1346,18 +1373,28 @@ func c02RunReattach(run *vk.Run, nw *c02Net, cfg c02Cfg) (out c02Outcome) {
 				case <-startDone:
 					return "bridge-ended"
 				case <-poll.C:
+					if phase != "after-handover" {
+						continue
+					}
 					select {
 					case <-T.wDone:
 					default:
 						continue
 					}
-					if phase != "after-handover" || T.wErr != nil {
+					if T.wErr != nil {
 						continue
 					}
-					undelivered := func() bool { return S1.got.Load()+S2.got.Load() < int64(len(t2s)) }
-					if parked, sig := c02Parked(bridge, S1, S2, T); parked && undelivered() {
-						run.Violation("C02:stall|limit="+lc+"|script=reattach", detail(map[string]any{"goroutines": sig,
-							"what": "after the source re-attach all target bytes were handed to the tunnel, everything is parked, yet bytes reached neither source connection"}))
+					towardsSource := S1.got.Load()+S2.got.Load() < int64(len(t2s))
+					towardsTarget := T.got.Load() < int64(len(s2t))
+					if parked, sig := c02Parked(bridge, S1, S2, T); parked && (towardsSource || towardsTarget) {
+						towardsSource = S1.got.Load()+S2.got.Load() < int64(len(t2s))
+						if towardsSource {
+							run.Violation("C02:stall|limit="+lc+"|script=reattach", detail(map[string]any{"goroutines": sig,
+								"what": "after the source re-attach all target bytes were handed to the tunnel, everything is parked, yet bytes reached neither source connection"}))
+						} else {
+							run.Violation("C02:stall|script=new-source-bytes-after-reattach", detail(map[string]any{"goroutines": sig,
+								"what": "after SetSourceConnection the tunnel's source end is the new connection, but the source->target copy loop stays parked in Read on the replaced connection: bytes the new source end writes are never read, the target never gets them"}))
+						}
 						out.stalled = true
 						return "stalled"
 					}
@@ -1390,7 +1427,7 @@ func c02RunReattach(run *vk.Run, nw *c02Net, cfg c02Cfg) (out c02Outcome) {
 	}
 
 	// phase 1: everything sent so far has arrived; the target's writer is parked at h
-	why := waitAll("before-handover", S1.wDone, paused, S1.gotAll, T.gotAll)
+	why := waitAll("before-handover", S1.wDone, paused, S1.gotAll, T.markCh)
 	if why == "" && (S1.wErr != nil || T.wErr != nil) {
 		why = "bridge-ended"
 	}
@@ -1400,18 +1437,22 @@ func c02RunReattach(run *vk.Run, nw *c02Net, cfg c02Cfg) (out c02Outcome) {
 		handedOver = true
 		run.Count("reattach_done", 1)
 		close(T.resume)
-		why = waitAll("after-handover", T.wDone, S2.gotAll)
-		if why == "" && T.wErr == nil {
-			// S1 must not have received anything beyond h: its reader flags any extra byte as
-			// overrun; give nothing more time than the data needed (S2 has everything)
+		go S2.writer()
+		why = waitAll("after-handover", T.wDone, S2.gotAll, S2.wDone, T.gotAll)
+		if why == "" && T.wErr == nil && S2.wErr == nil {
 			out.complete = S1.bad.Load() == nil && S2.bad.Load() == nil && T.bad.Load() == nil
 			if out.complete {
 				run.Count("reattach_suffix_exact", 1)
+				if after > 0 {
+					run.Count("reattach_new_source_bytes_delivered", 1)
+				}
 			}
 		}
 	} else {
 		close(T.resume)
+		close(S2.wDone)
 	}
+	run.Count("reattach_outcome_"+map[string]string{"": "exchanged"}[why]+why, 1)
 	switch why {
 	case "corrupt":
 		verdictCorrupt()
@@ -1422,10 +1463,15 @@ func c02RunReattach(run *vk.Run, nw *c02Net, cfg c02Cfg) (out c02Outcome) {
 		verdictCorrupt()
 	}
 
-	// teardown: target and OLD source connection are closed by the harness (see above)
-	cliT.Close()
-	cliS1.Close()
+	// phase 3: one of the tunnel's CURRENT ends closes; the abandoned S1 is left alone
 	if why == "" {
+		closer, other, script := cliT, S2, "target-closes-after-source-reattach"
+		closed = "tgt"
+		if cfg.Closer == "src" {
+			closer, other, script = cliS2, T, "new-source-closes-after-source-reattach"
+			closed = "src2"
+		}
+		closer.Close()
 		wd := time.NewTimer(c02WatchClose)
 		poll := time.NewTicker(time.Second)
 	closing:
@@ -1433,13 +1479,14 @@ func c02RunReattach(run *vk.Run, nw *c02Net, cfg c02Cfg) (out c02Outcome) {
 			select {
 			case <-startDone:
 				run.Count("closure_checks", 1)
-				if srvS2.closes.Load() == 0 {
-					run.Violation("C02:closure|peer-conn-left-open|script=reattach", detail(map[string]any{
-						"what": "bridge finished without closing the current (re-attached) source connection"}))
+				if other.srv.closes.Load() == 0 {
+					run.Violation("C02:closure|peer-conn-left-open|script="+script, detail(map[string]any{
+						"what": "bridge finished without closing the other current end's connection"}))
 				} else {
 					select {
-					case <-S2.rDone:
+					case <-other.rDone:
 						run.Count("closure_observed_by_peer", 1)
+						run.Count("reattach_closure_ok", 1)
 					case <-wd.C:
 						run.Count("harness_reader_stuck", 1)
 						out.watchdog = true
@@ -1447,9 +1494,16 @@ func c02RunReattach(run *vk.Run, nw *c02Net, cfg c02Cfg) (out c02Outcome) {
 				}
 				break closing
 			case <-poll.C:
-				if parked, sig := c02Parked(bridge, S2); parked {
-					run.Violation("C02:closure|bridge-hang|script=reattach", detail(map[string]any{"bridge_goroutines": sig,
-						"what": "target and old source connection closed, yet the bridge stays parked: the re-attached source end never observes closure"}))
+				if parked, sig := c02Parked(bridge, S1, S2, T); parked {
+					peerSaw := false
+					select {
+					case <-other.rDone:
+						peerSaw = true
+					default:
+					}
+					run.Violation("C02:closure|bridge-hang|script="+script, detail(map[string]any{"bridge_goroutines": sig,
+						"other_end_observed_closure": peerSaw, "start_returned": false,
+						"what": "after a source re-attach one of the tunnel's current ends closed; the source->target copy loop is still parked in Read on the replaced source connection, so Bridge.Start never returns (the server cannot forget the tunnel) and, when the new source end is the one that closed, the target never observes closure"}))
 					out.stalled = true
 					break closing
 				}
@@ -1463,7 +1517,9 @@ func c02RunReattach(run *vk.Run, nw *c02Net, cfg c02Cfg) (out c02Outcome) {
 		wd.Stop()
 		poll.Stop()
 	}
-	// cleanup
+	// cleanup (only now the abandoned connection is closed)
+	cliT.Close()
+	cliS1.Close()
 	cliS2.Close()
 	bridge.Close()
 	for _, c := range []io.Closer{srvS1, srvS2, srvT} {
@@ -1475,7 +1531,7 @@ func c02RunReattach(run *vk.Run, nw *c02Net, cfg c02Cfg) (out c02Outcome) {
 		}
 	}
 	cw := time.NewTimer(c02WatchClose)
-	for _, ch := range []chan struct{}{S1.rDone, S2.rDone, T.rDone, S1.wDone, T.wDone, startDone} {
+	for _, ch := range []chan struct{}{S1.rDone, S2.rDone, T.rDone, S1.wDone, S2.wDone, T.wDone, startDone} {
 		select {
 		case <-ch:
 		case <-cw.C:
@@ -1491,8 +1547,8 @@ func c02RunReattach(run *vk.Run, nw *c02Net, cfg c02Cfg) (out c02Outcome) {
 	run.Count("cases_limit_"+lc, 1)
 	run.Count("cases_script_reattach", 1)
 	run.Count("bytes_delivered", S1.got.Load()+S2.got.Load()+T.got.Load())
-	run.Distinct(fmt.Sprintf("%s+%s>%s|stream=%v|limit=%s|attach=%s|script=reattach|%s/%s", cfg.SrcT, cfg.SrcT2, cfg.TgtT, cfg.Stream, lc, cfg.Attach,
-		c02SizeBucket(cfg.S2T), c02SizeBucket(cfg.T2S)))
+	run.Distinct(fmt.Sprintf("%s+%s>%s|stream=%v|limit=%s|attach=%s|script=reattach|after=%v|closer=%s|%s/%s", cfg.SrcT, cfg.SrcT2, cfg.TgtT, cfg.Stream, lc, cfg.Attach,
+		after > 0, cfg.Closer, c02SizeBucket(cfg.S2T), c02SizeBucket(cfg.T2S)))
 	return out
 }
 
@@ -1532,7 +1588,7 @@ func TestVerifC02BytePipe(t *testing.T) {
 	vk.Quiet()
 	run := vk.Start(t, "C02", "bytepipe")
 	defer run.Finish()
-	run.Rule("a real tunnel.Bridge between two harness clients; per case: transports per end {net.Pipe, unbounded in-memory pipe, loopback TCP}, raw conn or real StreamProcessor, bandwidth limit {0, 500..16383 (burst < 32KiB copy buffer), 64KiB/s, 1MiB/s, 1GiB/s}, 0..1.5MiB (thorough 8MiB) per direction simultaneously (sizes of limited cases chosen so a correct transfer needs <= 1.5s, plus a few slow-but-legal cases: 500..4000 B/s with one write of 6-10x the limit, 4-8 s), seeded write chunkings (1B..256KiB / whole), server-side short reads, client read buffers 1B..64KiB, target attached before/after Start/after the source started writing, scripts {none, injected read timeouts (bare or together with data), an end finishing after a complete exchange with its last bytes delivered together with io.EOF, source re-attach on a new connection at a seeded hand-over offset with the old connection left open, client close at a seeded offset, server-side read/write failure at a seeded offset (bare or with data), Bridge.Close at a seeded offset}; distinct = (transports, stream, limit class, attach, script, size buckets) of cases that delivered at least one byte")
+	run.Rule("a real tunnel.Bridge between two harness clients; per case: transports per end {net.Pipe, unbounded in-memory pipe, loopback TCP}, raw conn or real StreamProcessor, bandwidth limit {0, 500..16383 (burst < 32KiB copy buffer), 64KiB/s, 1MiB/s, 1GiB/s}, 0..1.5MiB (thorough 8MiB) per direction simultaneously (sizes of limited cases chosen so a correct transfer needs <= 1.5s, plus a few slow-but-legal cases: 500..4000 B/s with one write of 6-10x the limit, 4-8 s), seeded write chunkings (1B..256KiB / whole), server-side short reads, client read buffers 1B..64KiB, target attached before/after Start/after the source started writing, scripts {none, injected read timeouts (bare or together with data), an end finishing after a complete exchange with its last bytes delivered together with io.EOF, source re-attach on a new connection at a seeded hand-over offset with the old connection left open (then optionally bytes from the new source end, then the target or the new source end closes while the old connection is still open), client close at a seeded offset, server-side read/write failure at a seeded offset (bare or with data), Bridge.Close at a seeded offset}; distinct = (transports, stream, limit class, attach, script, size buckets) of cases that delivered at least one byte")
 
 	ln, err := net.Listen("tcp", "127.0.0.1:0")
 	if err != nil {
@@ -1670,6 +1726,8 @@ func TestVerifC02BytePipe(t *testing.T) {
 	run.Floor("reads_returning_data_and_error", 20)
 	run.Floor("fin_with_data_fired", 5)
 	run.Floor("reattach_suffix_exact", 5)
+	run.Floor("reattach_closure_ok", 5)
+	run.Floor("reattach_new_source_bytes_delivered", 2)
 	run.Floor("slow_legal_complete", int64(run.Pick(4, 16)))
 }
 
